@@ -5,6 +5,7 @@ import Sentinel.Lemmas.LeapArrayRaceStarted
 import Sentinel.Lemmas.LeapArrayRaceRead
 import Sentinel.Lemmas.LeapArrayRaceDrain
 import Sentinel.Lemmas.LeapArrayRaceNonInt
+import Sentinel.Lemmas.LeapArrayRaceSigned
 /-!
 # C09 — Sliding-window counters stay sound under concurrent writers and rollover
 (property theorems only; the invariants live in `Sentinel/Lemmas/LeapArrayRace*.lean`)
@@ -595,5 +596,185 @@ theorem solo_reader_sums_only_recent (sh : Shared) (now : Nat) (m j0 : Nat) :
 /-- non-vacuity with a far jump: 5 passes at 1000, a view reader 2^32 + 300 ms later sums no slot at all -/
 example : validFrom (run (fresh 2 500 1000 1000 1000 [[.add 0 5]]) [.step 0, .step 0, .step 0]).sh (1000 + 2 ^ 32 + 300) 2 0 = [] := by
   decide
+
+/-! ## signed amounts: the positive and the negative run -/
+
+/-- an operation with a signed amount (the API takes `int64`: decrements, roll-backs) -/
+inductive OpZ where
+  | add (ev : Nat) (a : Int)
+  | conc (c : Nat)
+  | count (ev : Nat)
+  | viewsum (ev : Nat)
+
+/-- the operation of the **positive** run: records `max a 0` (`Drv.C09.parseOp?`) -/
+def OpZ.pos : OpZ → OpSpec
+  | .add ev a => .add ev a.toNat
+  | .conc c => .conc c | .count ev => .count ev | .viewsum ev => .viewsum ev
+
+/-- the operation of the **negative** run: records `max (-a) 0`; an rt amount is recorded as in the positive run
+    (`Drv.C09.negOp?`) -/
+def OpZ.neg : OpZ → OpSpec
+  | .add ev a => .add ev (if ev = evRt then a.toNat else (-a).toNat)
+  | .conc c => .conc c | .count ev => .count ev | .viewsum ev => .viewsum ev
+
+theorem pos_neg_same_erasure (o : OpZ) : eraseOp o.pos = eraseOp o.neg := by
+  cases o <;> simp [OpZ.pos, OpZ.neg, eraseOp]
+  split_ifs <;> simp_all
+
+/-- **control flow never depends on counter contents** (`Lemmas/LeapArrayRaceSigned.lean`: erasure is a homomorphism of
+    the step relation), instantiated: for every signed program and every schedule, the positive and the negative run have
+    the same erasure — same bucket starts, lock word, `minRt`, `maxConc`, same program counters of every thread (hence the
+    same yield points: the driver's `bad-model-split` never happens), same number and kind of completed operations.  The
+    driver prints `positive − negative` for every counter and return value. -/
+theorem split_runs_same_control (n L Iv t0 clock : Nat) (zs : List (List OpZ)) (s : List Entry) :
+    eraseCfg (run (fresh n L Iv t0 clock (zs.map fun p => p.map OpZ.pos)) s)
+      = eraseCfg (run (fresh n L Iv t0 clock (zs.map fun p => p.map OpZ.neg)) s) := by
+  apply ctl_independent
+  simp only [eraseCfg, fresh, List.map_map]
+  congr 1
+  apply List.map_congr_left
+  intro p _
+  simp only [Function.comp, eraseTh, mkThread, List.map_map, Option.map_none, List.map_nil]
+  congr 1
+  apply List.map_congr_left
+  intro o _
+  exact pos_neg_same_erasure o
+
+/-- … in particular every thread is parked at the same yield point in both runs -/
+theorem split_runs_same_hooks (n L Iv t0 clock : Nat) (zs : List (List OpZ)) (s : List Entry) (i : Nat) :
+    ((run (fresh n L Iv t0 clock (zs.map fun p => p.map OpZ.pos)) s).th[i]?.map fun t => t.cur.map fun f => f.pc.hook)
+      = ((run (fresh n L Iv t0 clock (zs.map fun p => p.map OpZ.neg)) s).th[i]?.map fun t => t.cur.map fun f => f.pc.hook) := by
+  have h := congrArg (fun c => c.th[i]?.map fun t => t.cur.map fun f => f.pc.hook) (split_runs_same_control n L Iv t0 clock zs s)
+  have key : ∀ c : Cfg, ((eraseCfg c).th[i]?.map fun t => t.cur.map fun f => f.pc.hook)
+      = (c.th[i]?.map fun t => t.cur.map fun f => f.pc.hook) := by
+    intro c
+    simp only [eraseCfg, List.getElem?_map, Option.map_map]
+    congr 1
+    funext t
+    simp only [Function.comp, eraseTh, Option.map_map]
+    congr 1
+    funext f
+    simp only [Function.comp, eraseFrame]
+    cases f.pc <;> rfl
+  simp only [key] at h
+  exact h
+
+/-- **signed no-invention** (transfer of `no_invention_started` to both runs): take a read of event `ev` that returned
+    `vp` in the positive run and the read that returned `vn` in the negative run.  The signed value `vp − vn` the driver
+    prints is at most the sum of the **positive parts** of the amounts of the `add ev` operations that have started, and at
+    least minus the sum of their **negative parts** (`Cfg.started` of the positive resp. negative run is exactly that sum:
+    the runs record `max a 0` resp. `max (−a) 0`). -/
+theorem signed_read_bounds (n L Iv t0 clock : Nat) (zs : List (List OpZ)) (s : List Entry)
+    (tp tn : Th) (rp rn : Res) (vp vn : Nat)
+    (htp : tp ∈ (run (fresh n L Iv t0 clock (zs.map fun p => p.map OpZ.pos)) s).th) (hrp : rp ∈ tp.res) (hvp : rp.val = some vp)
+    (htn : tn ∈ (run (fresh n L Iv t0 clock (zs.map fun p => p.map OpZ.neg)) s).th) (hrn : rn ∈ tn.res) (hvn : rn.val = some vn) :
+    ((vp : Int) - vn ≤ ((run (fresh n L Iv t0 clock (zs.map fun p => p.map OpZ.pos)) s).started rp.op.ev : Int))
+    ∧ (-((run (fresh n L Iv t0 clock (zs.map fun p => p.map OpZ.neg)) s).started rn.op.ev : Int) ≤ (vp : Int) - vn) := by
+  have h1 := no_invention_started n L Iv t0 clock _ s tp htp rp hrp vp hvp
+  have h2 := no_invention_started n L Iv t0 clock _ s tn htn rn hrn vn hvn
+  constructor <;> omega
+
+theorem validFrom_congr (sh sh' : Shared) (h : eraseSh sh = eraseSh sh') (now m j : Nat) :
+    validFrom sh now m j = validFrom sh' now m j := by
+  have hn : sh.n = sh'.n := by
+    have h0 : (eraseSh sh).n = (eraseSh sh').n := by rw [h]
+    exact h0
+  have hL : sh.L = sh'.L := by
+    have h0 : (eraseSh sh).L = (eraseSh sh').L := by rw [h]
+    exact h0
+  have hI : sh.Iv = sh'.Iv := by
+    have h0 : (eraseSh sh).Iv = (eraseSh sh').Iv := by rw [h]
+    exact h0
+  have hs : sh.start = sh'.start := by
+    have h0 : (eraseSh sh).start = (eraseSh sh').start := by rw [h]
+    exact h0
+  induction m generalizing j with
+  | zero => rfl
+  | succ m ih =>
+    simp only [validFrom, ih]
+    have : keepOf sh (.viewsum 0) now (sh.start j) = keepOf sh' (.viewsum 0) now (sh'.start j) := by
+      simp only [keepOf, hn, hL, hI, hs]
+    rw [this]
+
+/-- **signed exactness, sequential reader** (transfer of `exact_solo_reader`): if in both runs no word of event `ev` is
+    dirty and nothing was lost, a view reader scheduled alone at `tr` returns in the positive run the recorded positive
+    parts and in the negative run the recorded negative parts **of the same slots** — so the signed value the driver prints
+    is the signed sum of what was recorded in the reader's window. -/
+theorem signed_exact_solo_reader (n L Iv t0 clock : Nat) (zs : List (List OpZ)) (s : List Entry) (ev tr : Nat)
+    (htr : 0 < tr) (hn : 0 < n)
+    (hdp : ∀ j, (run (fresh n L Iv t0 clock (zs.map fun p => p.map OpZ.pos)) s).sh.dirty j ev = false)
+    (hlp : ∀ j, (run (fresh n L Iv t0 clock (zs.map fun p => p.map OpZ.pos)) s).sh.lost j ev = 0)
+    (hdn : ∀ j, (run (fresh n L Iv t0 clock (zs.map fun p => p.map OpZ.neg)) s).sh.dirty j ev = false)
+    (hln : ∀ j, (run (fresh n L Iv t0 clock (zs.map fun p => p.map OpZ.neg)) s).sh.lost j ev = 0) :
+    let cp := run (fresh n L Iv t0 clock (zs.map fun p => p.map OpZ.pos)) s
+    let cn := run (fresh n L Iv t0 clock (zs.map fun p => p.map OpZ.neg)) s
+    let V := validFrom cp.sh tr n 0
+    let k := 1 + 2 * n + V.length
+    ((run (nextRound cp tr [[.viewsum ev]]) (List.replicate k (.step 0))).th[0]?.map fun t => (t.finished, t.res.map (·.val)))
+        = some (true, [some ((V.map fun j => cp.sh.fresh j ev).sum)])
+    ∧ ((run (nextRound cn tr [[.viewsum ev]]) (List.replicate k (.step 0))).th[0]?.map fun t => (t.finished, t.res.map (·.val)))
+        = some (true, [some ((V.map fun j => cn.sh.fresh j ev).sum)]) := by
+  intro cp cn V k
+  have hsame : eraseSh cp.sh = eraseSh cn.sh := congrArg Cfg.sh (split_runs_same_control n L Iv t0 clock zs s)
+  have hV : validFrom cn.sh tr n 0 = V := (validFrom_congr cp.sh cn.sh hsame tr n 0).symm
+  refine ⟨exact_solo_reader n L Iv t0 clock _ s ev tr htr hn hdp hlp, ?_⟩
+  have := exact_solo_reader n L Iv t0 clock _ s ev tr htr hn hdn hln
+  simp only at this
+  rw [hV] at this
+  exact this
+
+/-! ### the `ℤ`-valued counters: the algebraic core of the decomposition -/
+
+/-- effect of a step's action on `ℤ`-valued counter words: a zeroing stores 0, an add adds the **signed** amount `amt`
+    of the stepping thread's operation (the amount carried by the `ℕ`-action is ignored), everything else leaves them alone -/
+def applyCntZ (z : Nat → Nat → Int) (a : Act) (amt : Int) : Nat → Nat → Int :=
+  match a with
+  | .zeroCnt i k => fun x y => if x = i ∧ y = k then 0 else z x y
+  | .addCnt i k _ => fun x y => if x = i ∧ y = k then z x y + amt else z x y
+  | _ => z
+
+/-- the amount an action adds (0 for the others) -/
+def actAmount : Act → Nat
+  | .addCnt _ _ a => a
+  | _ => 0
+
+/-- **one step of the decomposition**: if the `ℤ`-counters are `positive − negative` before a step, and the two runs
+    take the same action up to the amount (`eraseAct` — guaranteed at every step of every schedule by
+    `split_runs_same_control` / `decide_erase`), the positive run adding `max a 0` and the negative run `max (−a) 0`, then
+    the `ℤ`-counters updated with the signed amount `a` are `positive − negative` after the step.
+    (`a.toNat − (−a).toNat = a`.) -/
+theorem apply_decomposes (shp shn : Shared) (ap an : Act) (a : Int) (z : Nat → Nat → Int)
+    (h : eraseAct ap = eraseAct an)
+    (hp : ∀ i k x, ap = .addCnt i k x → x = a.toNat) (hn : ∀ i k x, an = .addCnt i k x → x = (-a).toNat)
+    (hz : ∀ i k, z i k = (shp.cnt i k : Int) - (shn.cnt i k : Int)) :
+    ∀ i k, applyCntZ z ap a i k = ((shp.apply ap).cnt i k : Int) - ((shn.apply an).cnt i k : Int) := by
+  intro i k
+  cases ap <;> cases an <;> simp [eraseAct] at h <;> (try obtain ⟨rfl, rfl⟩ := h) <;>
+    simp only [applyCntZ, Shared.apply, upd2, hz]
+  case zeroCnt.zeroCnt => split_ifs <;> simp
+  case addCnt.addCnt i0 k0 xp xn =>
+    have h1 := hp i0 k0 xp rfl
+    have h2 := hn i0 k0 xn rfl
+    subst h1; subst h2
+    split_ifs with hc
+    · obtain ⟨rfl, rfl⟩ := hc
+      push_cast; omega
+    · rfl
+
+/-- the reader side of the same step: a summation step adds the loaded word to the running sum, and differences add up -/
+theorem load_decomposes (accp accn cp cn : Nat) (accz cz : Int) (h1 : accz = (accp : Int) - accn) (h2 : cz = (cp : Int) - cn) :
+    accz + cz = ((accp + cp : Nat) : Int) - ((accn + cn : Nat) : Int) := by
+  push_cast; omega
+
+/-!
+**What is proved and what is missing for the full decomposition theorem.**  Proved: (1) control-flow independence for every
+schedule (`ctl_independent`, `split_runs_same_control`: the positive and the negative run take, at every step, the same action
+up to the amount of an add, go to the same program counter, and complete the same operations); (2) the algebraic core
+(`apply_decomposes`, `load_decomposes`: one step keeps `ℤ-counter = positive − negative`, `ℤ-sum = positive − negative`);
+(3) the safety results transferred to the pair of runs the driver executes (`signed_read_bounds`,
+`signed_exact_solo_reader`).  Missing: the *definition of whole configurations* of an independent `ℤ`-machine (threads with
+signed programs, their running sums and results) and the induction over `run` that threads (1) and (2) together — pure
+bookkeeping of which signed amount belongs to the operation a thread is in (including the operations skipped at clock 0).
+-/
 
 end Sentinel.C09
